@@ -45,11 +45,21 @@ class E(enum.Enum):
     r = 1
 class GD(typing.Generic[T]):
     pass
+import re
+@dataclasses.dataclass
+class CV:
+    a: int
+    ZERO: typing.ClassVar["CV"] = None
+@dataclasses.dataclass
+class DCall:
+    a: int
+    def __call__(self):
+        return 1
 """
 LEAVES = ["int", "str", "typing.Any", "object", "list", "dict", "tuple", "set", "frozenset", "typing.List", "typing.Dict",
           "typing.Tuple", "T", "B", "Cn", "typing.Callable[[int], str]", "typing.Callable[..., typing.Any]",
           "collections.abc.Callable", "type[int]", "typing.Type[DC]", "G", "G[int]", "NoHints", "DC", "E", "None",
-          "typing.Literal[1, 'a']", "datetime.datetime", "decimal.Decimal", "GD", "GD[str]"]
+          "typing.Literal[1, 'a']", "datetime.datetime", "decimal.Decimal", "GD", "GD[str]", "CV", "DCall", "re.Pattern[str]", "re.Pattern"]
 UNARY = ["list[{0}]", "typing.List[{0}]", "tuple[{0}, ...]", "dict[str, {0}]", "typing.Optional[{0}]", "typing.Sequence[{0}]",
          "collections.abc.Mapping[str, {0}]", "frozenset[{0}]", "G[{0}]"]
 BINARY = ["tuple[{0}, {1}]", "typing.Union[{0}, {1}]", "dict[{0}, {1}]"]
@@ -135,6 +145,17 @@ def child(job):
                     pt.append(f"unmarshaller({src})({p!r}) is not its input")
                 if m(p) is not p:
                     pt.append(f"marshaller({src})({p!r}) is not its input")
+        # a resolvable structured class is NOT a pass-through position: the routine must build the class
+        if src in ("DC", "CV", "DCall"):
+            try:
+                r = u({"a": "1"})
+                if type(r) is not t or r.a != 1:
+                    pt.append(f"unmarshaller({src})({{'a': '1'}}) did not build the class: {r!r}")
+                w = m(t(a=2))
+                if w != {"a": 2} and w != {"a": 2, "b": None}:
+                    pt.append(f"marshaller({src})({src}(a=2)) did not marshal the instance: {w!r}")
+            except Exception as e:  # noqa: BLE001
+                pt.append(f"structured probe raised {type(e).__name__}: {e}"[:160])
         inner = job_inner(src)
         if inner in PASS:
             try:
@@ -193,7 +214,19 @@ def explore(ctx):
     core.import_typelib()
     jobs = [anns[i:i + 12] for i in range(0, len(anns), 12)]
     outs = iso.map_isolated(child, jobs, timeout=120)
+    # a repeatability failure inside a batch may be cross-talk between ==-equal annotations of the batch (Union[str, int] next to
+    # Union[int, str]: the caches are keyed by ==, finding unionOrderKey of C05/C12): the annotation is judged again alone
+    redo = [o["src"] for out in outs if isinstance(out, list) for o in out
+            if o.get("construct") == "ok" and not o.get("passthrough") and o.get("repeat") != "ok"]
+    alone = {}
+    if redo:
+        for src, out in zip(redo, iso.map_isolated(child, [[src] for src in redo], timeout=120)):
+            if isinstance(out, list):
+                alone[src] = out[0]
+                res.count("rejudged-alone")
     for job, out in zip(jobs, outs):
+        if isinstance(out, list):
+            out = [alone.get(o["src"], o) if o.get("repeat") != "ok" else o for o in out]
         if isinstance(out, dict) and "crash" in out:
             # a child that died (e.g. stack overflow) is itself a finding about one of its annotations
             for src in job:
